@@ -100,12 +100,14 @@ class Built:
         return self.name.get(node, repr(node))
 
 
-def make_node(name, nd):
+def make_node(name, nd, obj_ids=False):
     from adsg_core.graph.adsg_nodes import (NamedNode, ConnectorNode, ConnectorDegreeGroupingNode, DesignVariableNode,
                                             MetricNode, MetricType)
     k = nd['k']
     if k == 'gen':
-        return NamedNode(name)
+        # obj_ids: user-given string identities (e.g. ids of an external model): the node hash is the string hash, which
+        # differs between processes with different PYTHONHASHSEED
+        return NamedNode(name, obj_id=f'node:{name}') if obj_ids else NamedNode(name)
     if k == 'conn':
         deg = nd['deg']
         rep = bool(nd.get('rep', False))
@@ -135,7 +137,7 @@ def build(spec, salt=None, base=0, stop_before_start=False) -> Built:
     b = Built()
     b.spec = spec
     for name, nd in spec['nodes'].items():
-        node = make_node(name, nd)
+        node = make_node(name, nd, obj_ids=bool(spec.get('obj_ids')))
         b.node[name] = node
         b.name[node] = name
 
